@@ -100,9 +100,10 @@ CLAIMS.update({
         "counts exact afterwards. " + TIE + " The harness closure really panics (catch_unwind), with guards held and concurrent writers. "
         "Pointee destructors that panic inside an operation are exercised on the real crate under the scheduler (arena objects flagged panic-on-destroy, grids g04/g05: the "
         "destructor panics inside a writer's slot walk while a guard on the removed value sits in a node not yet visited; grid g07: the destructor panics inside a READER, whose "
-        "helped fallback releases the last reference of its candidate - defect D9, a leaked replacement, found in wave 4 and repaired in 4a1a8a8); the oracles judge those traces (not modelled).",
+        "helped fallback releases the last reference of its candidate - defect D9, a leaked replacement, found in wave 4 and repaired in 4a1a8a8; grid g08: the destructor panics inside the load that compare_and_swap performs, the `new` value must be released by the unwinding); "
+        "the oracles judge those traces (not modelled).",
    note=NOTE + "Known finding D6 (a destructor panicking inside the slot walk leaks the removed value's reference; memory-safe) is listed in known_findings.txt and printed as "
-        "KNOWN-FINDING. Panicking Clone and panicking projections are not exercised.",
+        "KNOWN-FINDING; it is identified by the leaked object being the value the panicking writer had just removed - any other miscount after a panic is a violation. Panicking Clone and panicking projections are not exercised.",
    technique="Rocq/Coq proof (unwind lemmas) + trace correspondence with real panics"),
  "C15": dict(engine="RefCntModel",
    text="Coq theorems over Seq.RefCntModel (std Arc/Rc/Weak as a heap of (strong, weak, alive) cells whose primitives record every access; hand "
